@@ -227,4 +227,7 @@ def run(tier, seed):
     lib.log("[C10] cases=%d events=%d violations=%d tool=%d wall=%.1fs" % (tot["cases"], tot["events"], nviol, tool, time.time() - t0))
     if tot["cases"] == 0 or tool > max(3, tot["cases"] // 5):
         raise lib.ToolError("C10: too many tool-level mismatches (%d of %d)" % (tool, tot["cases"]))
+    # the same property against the executable model of the host interface (absolute oracle, Tier-S programs)
+    import hostmodel
+    nviol += hostmodel.check("C10", "flows", tier, seed)
     return nviol
